@@ -154,7 +154,8 @@ def gen_float(rng, big=False):
     conv = False; lower = upper = (); cond = 1.0
     if kind.endswith("quad"):
         n = rng.randint(1, 6); cond = rng.choice([1, 10, 100, 1e3] + ([1e4] if big else [])) if n > 1 else 1
-        if opt in ("CG", "LBFGS") and ls == 2 and not big: cond = min(cond, 100)
+        # CG / short-history L-BFGS with backtracking need ~cond * 30 steps: keep those runs affordable
+        if opt in ("CG", "LBFGS") and ls == 2: cond = min(cond, 100 if not big else 1000 if rng.random() < 0.9 else 1e4)
         A = spd(rng, n, cond); b = [rng.gauss(0, 3) for _ in range(n)]; x0 = [rng.uniform(-3, 3) for _ in range(n)]
         Af = [v for r in A for v in r]; lmax = float(cond)
     else:
@@ -222,12 +223,14 @@ def monitor(case, out):
     prev = None; restored = False; total = 0
     for idx, (l, o) in enumerate(zip(case, out)):
         if o.startswith("EXC"):
-            if l == "W":
+            if l == "W" and "fresh-instance-warmup" in o:
+                fail("exception-internal-error" if "internal_error" in o else "exception", idx, "init/step of the fresh instance (other start %s) threw: %s" % ("inside the box" if box else "x0/2+1", o[4:200]))
+            elif l == "W":
                 pd = kv(out[idx - 1]) if idx else {}
                 nanf = [k for k in ("pt", "val", "der", "sdir", "step", "lval") if k in pd and "nan" in pd[k]]
                 fail("saverestore-exception" + ("-nan-" + "-".join(nanf) if nanf else ""), idx, "write()/read() of the optimizer state threw: %s%s" % (o[4:200], ("; the state before the save holds NaN in " + ",".join(nanf)) if nanf else ""))
             else:
-                fail("exception", idx, "the library threw: " + o[4:200])
+                fail("exception-internal-error" if "internal_error" in o else "exception", idx, "the library threw: " + o[4:200])
             break
         if o in ("?", "BADLINE"):
             fail("harness", idx, "harness could not read the line"); break
@@ -378,6 +381,9 @@ def main():
         "minimiser reached = max-norm error <= 1e-4 (1 + |x*|) within budget(): 200 steps; L-BFGS with history < n: 200 + cond/5; CG or short-history L-BFGS with the backtracking line search: 100*cond+200 (they degenerate to restarted steepest descent)",
         "box feasibility with the 1e-13 slack of BoxConstraintHandler::isFeasible is modelled in exact rationals (x + eps < l); the C++ rounds x + eps",
         "TrustRegionNewton is abstract in this tree (cannot be instantiated): outside the check; an obligation watches that it stays so"]
+    for f_ in os.listdir(ck.replay_dir):
+        if re.match(r"viol_\d+\.json$", f_) or f_.startswith("case_"):
+            if not (ck.replay and os.path.abspath(ck.replay) == os.path.join(ck.replay_dir, f_)): os.remove(os.path.join(ck.replay_dir, f_))
     ck.proofs()
     model = extract_model(PID, "C10Extract.v", "c10_driver.ml")
     exe, err = cxx_build("c10_opt", [os.path.join(ROOT, "harness", "c10_opt.cpp")] + repo_src(*SRC))
@@ -403,8 +409,8 @@ def main():
         cdir = os.path.join(ROOT, "corpus", PID)
         if os.path.isdir(cdir):
             for f in sorted(os.listdir(cdir)): cases += read_cases(os.path.join(cdir, f))
-        cases += [gen_exact(rng) for _ in range(700 if not big else 12000)]
-        cases += [gen_float(rng, big) for _ in range(900 if not big else 12000)]
+        cases += [gen_exact(rng) for _ in range(700 if not big else 6000)]
+        cases += [gen_float(rng, big) for _ in range(900 if not big else 6000)]
 
     def run_both(cs, tag):
         mo = run_cases(model, cs, os.path.join(tmpd, tag + "_model.txt"))
